@@ -72,6 +72,29 @@ struct ArduinoJsonVerifInspector {
     }
   }
 
+  // The value nodes of one document (root, array elements, member values; not key or extension slots)
+  // with their parent node: what a JsonVariant may legitimately point at.  Pointers are only compared.
+  static void valueNodes(const ArduinoJson::JsonDocument& d, std::map<const VD*, const VD*>& parent) {
+    parent[&d.data_] = nullptr;
+    valueNodesBelow(d.resources_, &d.data_, parent, 0);
+  }
+  static void valueNodesBelow(const RM& rm, const VD* v, std::map<const VD*, const VD*>& parent, int depth) {
+    if (depth > 300 || parent.size() > 200000) return;
+    if (v->type_ != VT::Array && v->type_ != VT::Object) return;
+    bool isObject = v->type_ == VT::Object;
+    unsigned long id = v->content_.asCollection.head_;
+    size_t n = 0;
+    while (id != nullSlot() && validId(rm, id) && n < 200000) {
+      const VD* child = rm.getVariant(SlotId(id));
+      if (!isObject || n % 2 == 1) {
+        if (!parent.emplace(child, v).second) return;  // damaged tree: reported by snapshot()
+        valueNodesBelow(rm, child, parent, depth + 1);
+      }
+      id = child->next_;
+      n++;
+    }
+  }
+
   static bool validId(const RM& rm, unsigned long id) {
     auto& pl = rm.variantPools_;
     unsigned long pool = id / ARDUINOJSON_POOL_CAPACITY, idx = id % ARDUINOJSON_POOL_CAPACITY;
